@@ -270,7 +270,7 @@ def trust_key(t):
 
 
 # ----------------------------------------------------------------------------- one unit
-def run_unit(unit, tag="", substs=None, canary=None, seed=None, rlimit=RLIMIT, isolate=False):
+def run_unit(unit, tag="", substs=None, canary=None, seed=None, rlimit=RLIMIT, isolate=True):
     out = os.path.join(BUILD, tag, unit + ("_canary" if canary else "") + ".rs")
     try:
         meta = X.build_unit(unit_spec(unit), out, substs=substs, canary=canary, isolate=isolate)
@@ -415,10 +415,18 @@ def check(pid, tier, seed, rebaseline=False):
         return 2
     base = load_baseline()
     results = {}
-    with concurrent.futures.ThreadPoolExecutor(max_workers=8) as ex:
-        futs = {u: ex.submit(run_unit, u) for u in units}
-        for u, fu in futs.items():
-            results[u] = fu.result()
+    canary_futs = []
+    pool = concurrent.futures.ThreadPoolExecutor(max_workers=12)
+    futs = {u: pool.submit(run_unit, u) for u in units}
+    # canaries (vacuity guard) run concurrently with the main runs
+    for u in units:
+        try:
+            for cn in X.parse_spec(unit_spec(u)).canaries:
+                canary_futs.append((u, cn, pool.submit(run_unit, u, "canary/" + hashlib.md5(cn.encode()).hexdigest()[:6], None, cn)))
+        except X.ExtractError:
+            pass
+    for u, fu in futs.items():
+        results[u] = fu.result()
     undecided, violations, notes = [], [], []
     known, _fixed = load_known()
     known_hit = []
@@ -513,19 +521,13 @@ def check(pid, tier, seed, rebaseline=False):
     discharged = obligations - len(undis)
     # canaries (vacuity): a contradictory precondition/assumption would make `ensures false` provable
     canary_rows = []
-    if not undecided:
-        jobs = []
-        for u in units:
-            for cn in results[u]["meta"]["canaries"]:
-                jobs.append((u, cn))
-        with concurrent.futures.ThreadPoolExecutor(max_workers=8) as ex:
-            futs = [(u, cn, ex.submit(run_unit, u, "canary/" + hashlib.md5(cn.encode()).hexdigest()[:6], None, cn)) for u, cn in jobs]
-            for u, cn, fu in futs:
-                rc_ = fu.result()
-                hit = [f for f in rc_.get("failures", []) if f.get("clause") == "CANARY"]
-                canary_rows.append(dict(unit=u, fn=cn, rejected=bool(hit)))
-                if not hit:
-                    undecided.append("%s: canary `ensures false` on %s was NOT rejected (status %s): contracts are vacuous" % (u, cn, rc_["status"]))
+    for u, cn, fu in canary_futs:
+        rc_ = fu.result()
+        hit = [f for f in rc_.get("failures", []) if f.get("clause") == "CANARY"]
+        canary_rows.append(dict(unit=u, fn=cn, rejected=bool(hit)))
+        if not hit and not undecided:
+            undecided.append("%s: canary `ensures false` on %s was NOT rejected (status %s): contracts are vacuous" % (u, cn, rc_["status"]))
+    pool.shutdown()
     if obligations == 0:
         undecided.append("zero obligations generated")
     ev_extra = {}
